@@ -32,6 +32,14 @@ BASE_T = 1_700_000_000  # virtual epoch (seconds)
 RECYCLE = 60
 
 
+def scratch():
+  """Run-scoped scratch directory (tmpfs when available); removed by the runner at the end."""
+  d = os.environ.get('VERIF_TMP')
+  if d and os.path.isdir(d):
+    return d
+  return '/dev/shm' if os.path.isdir('/dev/shm') else None
+
+
 # ----------------------------------------------------------------------------------------------
 # virtual clock (module-level because the servicer reads module attributes)
 class VirtualClock:
